@@ -285,6 +285,14 @@ fn gen_dirs(rng: &mut Rng, permissive: bool) -> (Vec<(usize, usize)>, usize) {
             v.push((t, if permissive { 2 + rng.usize(4) } else { rng.usize(6) }));
         }
     }
+    // a third of the tables name one target twice (the later entry replaces the earlier one,
+    // with `with_target` and in a parsed string alike)
+    if !v.is_empty() && rng.chance(1, 3) {
+        let i = rng.usize(v.len());
+        let (t, l) = v[i];
+        let other = (l + 1 + rng.usize(5)) % 6;
+        v.insert(i, (t, other));
+    }
     (v, if permissive { 3 + rng.usize(3) } else { rng.usize(6) })
 }
 fn gen_mask(rng: &mut Rng, permissive: bool) -> u64 {
